@@ -24,7 +24,26 @@ def wrap(x):
     return (x + math.pi) % (2 * math.pi) - math.pi
 
 
-if "optimal_rotation_to_ref_coords" in label or "align_to_ref_coords" in label:
+if "Substructure" in label or "sub/" in label:
+    for t in range(5):
+        m = chain()
+        atoms = list(m.atoms)
+        before = {id(a): m.coords[i].copy() for i, a in enumerate(atoms)}
+        s = m.substructure([atoms[2], atoms[3]])
+        v1, v2 = rng.normal(size=3), rng.normal(size=3)
+        s.translate(v1)
+        m.del_atom(atoms[0])
+        s.translate(v2)
+        for a in (atoms[2], atoms[3]):
+            if not np.allclose(m.get_atom_coord(a), before[id(a)] + v1 + v2):
+                bad.append("after del_atom on the parent, a substructure created earlier moves other atoms than its own")
+                break
+        for a in (atoms[1], atoms[4]):
+            if not bad and not np.allclose(m.get_atom_coord(a), before[id(a)]):
+                bad.append("after del_atom on the parent, translating a substructure moved an atom outside it")
+        if bad:
+            break
+elif "optimal_rotation_to_ref_coords" in label or "align_to_ref_coords" in label:
     ens = ml.ConformerEnsemble.load_mol2(ml.files.pentane_confs_mol2)
     nconf = ens.n_conformers
     for trial in range(20):
@@ -96,12 +115,13 @@ elif "rotation_matrix_from_vectors" in label:
         if t % 4 == 1:
             b = -a * rng.uniform(0.3, 3.0)              # exactly opposite
         elif t % 4 == 2:
-            b = -a + rng.normal(size=3) * 1e-9          # nearly opposite
+            # nearly opposite, still inside the special branch (1 + cos < 1e-8 means an angle offset below ~1.4e-4)
+            b = -a + np.cross(a, rng.normal(size=3)) / np.linalg.norm(a) * float(rng.choice([1e-9, 1e-6, 5e-5]))
         elif t % 4 == 3:
             a = np.eye(3)[t % 3] * rng.uniform(0.5, 2)  # along a coordinate axis, opposite
             b = -a * 1.7
         R = rotation_matrix_from_vectors(a, b)
-        if not np.allclose(a / np.linalg.norm(a) @ R, b / np.linalg.norm(b), atol=1e-8) or not np.allclose(R @ R.T, np.eye(3), atol=1e-8) or abs(np.linalg.det(R) - 1) > 1e-8:
+        if not np.allclose(a / np.linalg.norm(a) @ R, b / np.linalg.norm(b), atol=1e-7) or not np.allclose(R @ R.T, np.eye(3), atol=1e-8) or abs(np.linalg.det(R) - 1) > 1e-8:
             bad.append(f"rotation_matrix_from_vectors({a}, {b}) is not the proper rotation a->b")
             break
 elif "rotation_matrix_from_axis" in label:
